@@ -434,6 +434,30 @@ class Analyzer:
         if k == "Match":
             # a match over values outside the float model (enum classifications): every arm whose guard
             # can hold is explored - an over-approximation of the paths
+            scr = A.strip(e["e"])
+            if scr.get("k") == "Tuple":
+                elems = [self.ev(x, env) for x in scr["elems"]]
+                if all(v_[0] == "b" for v_ in elems):
+                    # a table over comparisons: first arm whose literals can all hold; stop at one that must
+                    done = []
+                    for arm in e["arms"]:
+                        pats = arm["pat"]["elems"] if arm["pat"].get("k") == "PTuple" else None
+                        if pats is None or len(pats) != len(elems) or arm.get("guard") is not None:
+                            raise Unsupported("match arm over a tuple of comparisons")
+                        may, must = True, True
+                        for p_, v_ in zip(pats, elems):
+                            if p_.get("k") == "PWild":
+                                continue
+                            if p_.get("k") != "PLit" or p_["lit"].get("ty") != "bool":
+                                raise Unsupported("pattern in a tuple of comparisons")
+                            want = p_["lit"]["v"] == "true"
+                            may = may and (want in v_[1])
+                            must = must and (v_[1] == {want})
+                        if may:
+                            done.append(self.ev(arm["body"], dict(env)) == ("ret",))
+                        if must:
+                            break
+                    return ("ret",) if done and all(done) else ("?",)
             sv = self.ev(e["e"], env)
             if sv[0] not in ("?", "tuple"):
                 raise Unsupported("match on %s" % sv[0])
